@@ -380,7 +380,7 @@ Definition quirk_of (p : program) (ids : list nat) (input : bool) : quirks :=
 (* subsets of {1 nil, 2 empty, 3 union, 4 alias, 5 empty-with-default lost}, smallest first *)
 Definition subsets_of_size (k : nat) : list (list nat) :=
   filter (fun l => length l =? k)
-         (fold_right (fun x acc => acc ++ map (cons x) acc) [[]] [1; 2; 3; 4; 5; 6]).
+         (fold_right (fun x acc => map (cons x) acc ++ acc) [[]] [1; 2; 3; 4; 5; 6]).
 Definition quirk_sets : list (list nat) := concat (map subsets_of_size [0; 1; 2; 3; 4; 5; 6]).
 
 Definition docs_equal_under (p : program) (ids : list nat) (a b : xdoc) : bool :=
